@@ -127,6 +127,7 @@ from .instructionselector import ContextInterface
 class MiniCtx(ContextInterface):
     def __init__(self, frame, arch):
         self._frame = frame
+        self.frame = frame  # patterns reach the frame via context.frame
         self._arch = arch
         self.instructions = []
 
